@@ -1,6 +1,8 @@
 (* C05 -- scoped dispatch (partial).  Only statements, `exact` proofs and Print Assumptions. *)
 From LolModel Require Import Machine Selectors Rewriter.
-From LolProofs Require Import Memory Scope.
+From LolProofs Require Import Memory Scope StackTree TypedCounters EndTags.
+From LolSpec Require Import CssSem.
+From Coq Require Import List.
 Open Scope nat_scope.
 
 (* For EVERY selector set, handler scripts (mutating or not), failure injection point, configuration, document and
@@ -31,6 +33,25 @@ Theorem C05_scoped_handler_active_iff_matched_element_open :
        (0 < cnt (r_text c) i <-> exists it id, In it (vs_items (r_stack c)) /\ In id (ed_matched (si_data it)) /\ owns (r_locators c0) lc_tx i id = true)).
 Proof. exact scoped_handler_active_iff_matched_element_open. Qed.
 
+(* End tags: for every stack that follows the tag-induced tree (C04_vm_stack_and_counters_follow_the_tree: every reachable
+   one), an end tag deactivates -- scoped handlers off, end-tag handler armed, via stop_matching -- exactly the open
+   elements that it closes in the tree: the innermost open element of that name and everything inside it, each once
+   (they leave the stack), and an end tag matching no open element deactivates nothing. *)
+Theorem C05_end_tag_pops_exactly_the_closed_elements :
+  forall s t name s' popped,
+  Rfull s t -> stack_pop_up_to s (K name) = (s', popped) ->
+  let k := length (t_open (on_end t name)) in
+  popped = map si_data (skipn k (vs_items s)) /\ vs_items s' = firstn k (vs_items s) /\ length popped = length (t_open t) - k /\
+  (close_to name (t_open t) = None -> popped = nil /\ s' = s).
+Proof. exact end_tag_pops_exactly_the_closed_elements. Qed.
+Theorem C05_end_tag_stops_exactly_the_closed_elements :
+  forall c name t, r_prog c <> None -> Rfull (r_stack c) t ->
+  let k := length (t_open (on_end t name)) in
+  fst (rw_end_tag c name (hash_of name)) =
+  fold_left stop_matching (map si_data (skipn k (vs_items (r_stack c))))
+            (rset_vm c (fst (stack_pop_up_to (r_stack c) (K name))) (r_vm_charged c)).
+Proof. exact end_tag_stops_exactly_the_closed_elements. Qed.
+
 (* non-vacuity: `div` with a comment handler, after writing "<div><p><!--" the handler is active and exactly one
    (element, selector) pair owns it; after "</div>" it is inactive again *)
 Definition ex_sels := [mkSH [mkComplex [SType (bs "div")] []] None (Some []) None].
@@ -47,3 +68,5 @@ Proof. vm_compute. reflexivity. Qed.
 
 Print Assumptions C05_handler_counts_track_open_matched_elements.
 Print Assumptions C05_scoped_handler_active_iff_matched_element_open.
+Print Assumptions C05_end_tag_pops_exactly_the_closed_elements.
+Print Assumptions C05_end_tag_stops_exactly_the_closed_elements.
